@@ -211,6 +211,9 @@ func (e *Engine) runPath(sol *Solver, prefix []int) (res PathResult) {
 	if p.pendingAbort != nil {
 		panic(*p.pendingAbort)
 	}
+	if lk := p.leakedLock(); lk != "" {
+		p.reportViolationSafe("lockleak", "a mutex is left locked for ever by a goroutine that has returned: "+lk)
+	}
 	return
 }
 
